@@ -18,10 +18,10 @@ func init() {
 			c.runSelfKey("SELFKEY", c.libPkgs()[:3], nil)
 			c.floor("SELFKEY", 3)
 			c.runStaleCopy("STALECOPY", c.libPkgs()[:3], nil)
-			c.floor("STALECOPY", 3)
+			c.floor("STALECOPY", 1)
 			// ARAP assembles its sparse system row by row
 			c.runRowIdx("ROWIDX", c.libPkgs()[:1], baseIn("deformation.go"))
-			c.floor("ROWIDX", 1)
+			c.floor("ROWIDX", 0)
 		},
 		SelfTest: []Mutation{
 			{Name: "2D decimation reads neighbours from the input mesh", File: "model2d/mesh_ops.go",
